@@ -189,7 +189,9 @@ def canonicalise(repo, modules):
         call.keywords = kws
         if keyword_form(call):
             return
-        if not call.keywords or any(isinstance(a, ast.Starred) for a in call.args) or any(k.arg is None for k in call.keywords):
+        if any(isinstance(a, ast.Starred) for a in call.args) or any(k.arg is None for k in call.keywords):
+            return
+        if not call.keywords and not (call.args and isinstance(call.args[-1], ast.Constant)):
             return
         sig = signature_of(call, mod, cls)
         if not sig:
@@ -206,6 +208,11 @@ def canonicalise(repo, modules):
                 pos.append(ast.copy_location(ast.Constant(value=defaults[name].value), call))
             else:
                 break
+        # trailing arguments that spell out a constant default are the call without them (f(a, None, False) == f(a))
+        if not by_name:
+            while pos and len(pos) <= len(sig) and sig[len(pos) - 1] in defaults and isinstance(pos[-1], ast.Constant) \
+                    and type(pos[-1].value) is type(defaults[sig[len(pos) - 1]].value) and pos[-1].value == defaults[sig[len(pos) - 1]].value:
+                pos.pop()
         call.args = pos
         order = {n: i for i, n in enumerate(sig)}
         call.keywords = sorted(by_name.values(), key=lambda k: (order.get(k.arg, len(sig)), k.arg))
